@@ -243,6 +243,29 @@ def r2(ctx, F, rule, sfx):
         if all(dtab.evaluate(x, val_err) for x in g):
             leaks.append('bb%d when %s' % (blk, ' & '.join(repr(x)[-60:] for x in g) or 'always'))
     ctx.check(rule, 'scan-ends-only-by-acceptance' + sfx, not leaks and nexits >= 1, leaks[:2] or '%d normal exit(s), all on the Ok arm' % nexits, 'break only after Ok', w, key_extra='scan-exit')
+    # giving up (the panic) is allowed only when every remaining candidate has been offered: cursor >= number of removed vertices
+    early = []
+    ngive = 0
+    lens = {'len(%s)' % repr(I.frozen(p_)) for a_, p_ in zip(Li['init'], Li['phi']) if p_ is not None} | {'len(vs)'}
+    for blk, g in Li.get('exits', []):
+        if not diverges(cb, blk) or cb['blocks'][blk]['term']['k'] == 'unreachable':
+            continue            # (an `unreachable` arm of an exhaustive match is not a way out)
+        ngive += 1
+        full = False
+        for x in g:
+            for l in dtab.b_leaves(x).values():
+                if l.op != 'cmp':
+                    continue
+                op, a_, b_ = l.args
+                ta, tb = repr(a_), repr(b_)
+                if ta == cur_txt and tb.startswith('len(') and tb.endswith(')') and 'min(' not in tb and op in ('>=', '=='):
+                    full = True
+                if tb == cur_txt and ta.startswith('len(') and ta.endswith(')') and 'min(' not in ta and op in ('<=', '=='):
+                    full = True
+        if not full:
+            early.append('bb%d when %s' % (blk, ' & '.join(repr(x)[-70:] for x in g) or 'always'))
+    ctx.check(rule, 'scan-gives-up-only-at-the-end' + sfx, not early, early[:2] or '%d panic exit(s), each under cursor >= len(vertices)' % ngive,
+              'the search for an attachable vertex covers every remaining removed vertex before it panics', w, key_extra='scan-giveup')
 
 
 def r2_search_form(ctx, F, rule, sfx, ip, cb, te, run, loops, w):
